@@ -319,6 +319,9 @@ func (c *Check) handlersAddNoRejection(rule string, msgs ...string) {
 			if !okCall && strings.Contains(t.String(), "GetModuleServiceByServiceName") {
 				okCall = true // listed: a service reserved by a module is not bound by message
 			}
+			if !okCall && c.outsideWindowOnly(last.Fact, 0) {
+				okCall = true // "the block is past the request's expiration height" (strictly): what the property itself demands
+			}
 			if !okCall {
 				bad, badPos = "a rejection under "+shortTerm(&Term{Op: "fact", A: []*Term{t}}), pa.RetPos
 				if last.Fact.Neg {
@@ -337,4 +340,110 @@ func (c *Check) handlersAddNoRejection(rule string, msgs ...string) {
 	}
 	c.Sites += n
 	c.req(n >= 1, rule, "handlers", token.NoPos, fmt.Sprintf("%d message handlers examined", n))
+}
+
+
+// outsideWindowOnly: the fact says no more than "the current block lies strictly outside the request's window" — the block
+// height is greater than the request's expiration height, or less than its request height — possibly through a helper
+// (a predicate, or a validator whose failure is the fact). Any other comparison (≥ at the expiration height, which turns
+// away an answer in the last block of the window) or any other test makes the result false.
+func (c *Check) outsideWindowOnly(f Fact, depth int) bool {
+	kind := func(t *Term) string {
+		t = stripConv(t)
+		switch {
+		case t.IsAt("BlockHeight") || strings.HasSuffix(t.Op, "Context.BlockHeight"):
+			return "H"
+		case t.Op == ".Request.ExpirationHeight":
+			return "E"
+		case t.Op == ".Request.RequestHeight":
+			return "R"
+		}
+		return ""
+	}
+	neg := map[string]string{"<": ">=", "<=": ">", ">": "<=", ">=": "<"}
+	t := f.T
+	isNeg := f.Neg
+	for t.Op == "!" && len(t.A) == 1 {
+		t, isNeg = t.A[0], !isNeg
+	}
+	if op, isCmp := neg[t.Op]; isCmp && len(t.A) == 2 {
+		o := t.Op
+		if isNeg {
+			o = op
+		}
+		l, r := kind(t.A[0]), kind(t.A[1])
+		switch l + o + r {
+		case "H>E", "E<H", "H<R", "R>H":
+			return true
+		}
+		return false
+	}
+	// emptiness of the looked-up request: no statement about the window at all (the keeper rejects an unknown request)
+	if strings.HasSuffix(t.Op, ".Request.Empty") || (t.Op == "res" && len(t.A) == 2 && t.A[0].IsAt("1")) {
+		return true
+	}
+	if t.Op == "nonempty" && len(t.A) == 1 && strings.HasPrefix(stripConv(t.A[0]).Op, ".Request.") {
+		return true
+	}
+	if depth >= 2 {
+		return false
+	}
+	// through a helper: a predicate that is true, or a validator that failed
+	var g *Func
+	var call *Term
+	wantFail := false
+	switch {
+	case t.Op == "ok" && len(t.A) == 1 && isNeg:
+		call, wantFail = stripConv(t.A[0]), true
+	case !isNeg:
+		call = stripConv(t)
+	default:
+		return false
+	}
+	g = c.P.FuncNamed(call.Op)
+	if g == nil || g.Body == nil || !g.isHandWritten() {
+		return false
+	}
+	m := argMap(g, call)
+	n := 0
+	for _, pa := range c.P.PathsOf(g) {
+		var decisive []Fact
+		switch {
+		case wantFail && pa.Exit == ExitRevert:
+		case !wantFail && pa.OK() && len(pa.Ret) == 1 && !stripConv(pa.Ret[0]).IsAt("#false"):
+			if r := stripConv(pa.Ret[0]); !r.IsAt("#true") {
+				decisive = append(decisive, Fact{T: r})
+			}
+		default:
+			continue
+		}
+		n++
+		var facts []Fact
+		for _, ev := range pa.Events {
+			if ev.Kind == EvFact {
+				facts = append(facts, ev.Fact)
+			}
+		}
+		if wantFail {
+			// a validator: the test that rejects is the last one (those before it are rejections not taken)
+			if len(facts) > 0 {
+				decisive = append(decisive, facts[len(facts)-1])
+			}
+		} else {
+			decisive = append(decisive, facts...)
+		}
+		some := false
+		for _, d := range decisive {
+			for _, nf := range d.SubstAll(m) {
+				if !c.outsideWindowOnly(nf, depth+1) {
+					return false
+				}
+				some = true
+			}
+		}
+		if !some {
+			return false
+		}
+	}
+	return n > 0
 }
